@@ -13,6 +13,24 @@ claimed = {
  'C02': ('exploration', 'runtime monitor: sign/bound predicate over every committed export plus direct balance reads of all accounts x coins',
          'Every committed height is checked for negative amounts, volume > max supply and non-positive pool reserves under boundary-heavy workloads.',
          'same driver as C01; balances hidden by the export are read through GetBalance', '5/C02'),
+ 'C03': ('exploration', 'runtime monitor: accessor snapshot of the whole known universe (balances, nonces, waitlists, coins, pools, orders, candidates, stakes) diffed around every DeliverTx; allowed-difference oracle for failed txs',
+         'Every failed DeliverTx in generated histories may only change the payer gas-coin balance by exactly tx.fail_fee and what converting the fee touches; every accepted tx raises the sender nonce by one.',
+         'frozen funds/votes/checks are outside the accessor snapshot (covered by per-block export monitors)', '5/C03'),
+ 'C04': ('exploration', 'runtime monitor: per-sender sequential nonce specification fed by observed acceptances, with replayed/reordered/foreign-chain deliveries',
+         'Every delivery of harness-made transactions is judged against last-accepted-nonce+1, own chain id and never-the-same-bytes-twice; GetNonce cross-checked.',
+         'only non-mutated transactions (ground-truth metadata) are judged', '5/C04'),
+ 'C06': ('exploration', 'runtime monitor: real CheckTx immediately before every DeliverTx on the same instance + undisturbed shadow instance without probes',
+         'Acceptance of CheckTx and DeliverTx is compared for every generated transaction; a second instance executing the same blocks without CheckTx calls must answer identically (side-effect freedom).',
+         'stub mempool (size 0): gas floor 1; code 113 counts as accept', '5/C06'),
+ 'C08': ('exploration', 'differential execution of recorded histories in three OS processes with different GOMAXPROCS/GOGC; per-height response/app-hash digests compared',
+         'The same recorded requests executed by separate processes must give identical codes, data, gas, tags, validator updates, max gas and app hashes at every height, and identical final exports.',
+         'map-iteration randomisation per process gives each order-dependent write a chance to differ; unseen orders stay unseen', '5/C08'),
+ 'C09': ('exploration', 'differential execution: never-stopped memdb instance vs goleveldb instance restarted at scheduled block boundaries; responses, queries and exports compared',
+         'At every restart point and at the end Info, emission, versions, validators, reward-price record, events and live/from-disk exports must equal the never-stopped instance, and all later responses and app hashes too.',
+         'clean stops at block boundaries; initial height > 1', '5/C09'),
+ 'C26': ('exploration', 'runtime monitor: per distinct transaction bytes, payer balances read around every (re)delivery',
+         'After a delivery of some bytes has been charged (accepted or failed inside Run), every later delivery of the same bytes must be rejected and cost nothing. Known finding: failed-in-Run transactions keep their nonce and are charged again.',
+         'payer = sender or check issuer; deliveries rejected before execution at no cost do not count as the first delivery', '5/C26'),
  'C07': ('exploration', 'recover()-guarded ABCI calls in supervised child processes under hostile histories and byte-level mutated inputs',
          'Any recovered panic or worker death during CheckTx/DeliverTx/BeginBlock/EndBlock/Commit is a violation with the recorded history as witness.',
          'os.Exit on accepted halt excluded; fatal runtime errors are caught by child supervision', '5/C07'),
